@@ -115,6 +115,7 @@ func runC03(c *Ctx) {
 	c.Guard(r5, reg, "hand-off", `^send:%d\.actionChan<-closure:`, 1,
 		clause("procedure URI valid for the requested match", T(`^call:wamp\.\(URI\)\.ValidURI\(%msg\.Procedure, %d\.strictURI, call:wamp\.AsString\(%msg\.Options\["match"\]\)#0\)$`)),
 		clause("not a wamp.* procedure, or registered by the meta session", F(`^call:strings\.HasPrefix\(%msg\.Procedure, "wamp\."\)$`), T(`^\(%callee\.ID == 1\)$`)))
+	ruleURIPatterns(c, r5) // "valid URI" is what the six patterns and their dispatch say
 	c.R.Floor(r5, 2)
 
 	// R6 INVOCATION provenance
@@ -191,6 +192,7 @@ func runC03(c *Ctx) {
 	const r10 = "C03.R10 a departed callee is removed from the dealer before its peer is closed (no call is routed to it afterwards)"
 	ruleSessionRemoval(c, r10)
 	ruleDealerRemoval(c, r10)
+	ruleShutdownFlag(c, r10) // a killed callee is not mistaken for a realm shutdown (which would skip its removal from the dealer)
 	c.R.Floor(r10, 14)
 }
 
